@@ -12,7 +12,7 @@ CLAIMED = {
    ref="5/C01"),
  "C02": dict(
    technique="property-based testing: round trip generated tree -> rendered text (random spelling tape) -> parse -> tree, three spellings per tree, both profiles",
-   text="Grammar-directed generator of syntax trees (all 18 statement kinds, precedence levels, list operands, calls, subscripts, poetic forms, nested blocks) x a spelling tape choosing aliases, case, optional words, separators, noise, comments, layout; the parsed tree must equal the generated one for the canonical and two random spellings. 60k trees x 3 spellings per profile (quick).",
+   text="Grammar-directed generator of syntax trees (all 18 statement kinds, precedence levels, list operands, calls, subscripts, poetic forms, nested blocks) x a spelling tape choosing aliases, case, optional words, separators, noise, comments, layout; the parsed tree must equal the generated one for the canonical and two random spellings. 300k trees x 3 spellings per profile (quick).",
    note="the generator encodes which trees rrss's greedy grammar can express (DESIGN 1.3, Appendix B); a wrong exclusion would show as a rejected rendering, i.e. an alarm to triage, not a silent pass",
    ref="5/C02"),
  "C03": dict(
@@ -22,7 +22,7 @@ CLAIMED = {
    ref="5/C03"),
  "C14": dict(
    technique="property-based testing: metamorphic/algebraic laws between runs of rrss, exhaustive over all ordered pairs of the value universe plus random pairs",
-   text="For all 2025 ordered pairs of the universe (exhaustive) and 100k random pairs (quick): symmetry of is, isnt/is not/ain't = negation, < vs >, <= vs >= incl. error symmetry, (<= and >=) = is when ordered, not/and/or/nor vs truthiness observed by if, compound assignment = expansion, build^n knock^n restores; both as programs and through Val's public methods. No model involved.",
+   text="For all 2025 ordered pairs of the universe (exhaustive) and 400k random pairs (quick): symmetry of is, isnt/is not/ain't = negation, < vs >, <= vs >= incl. error symmetry, (<= and >=) = is when ordered, not/and/or/nor vs truthiness observed by if, compound assignment = expansion, build^n knock^n restores; both as programs and through Val's public methods. No model involved.",
    note="restoration by build/knock is only demanded where every intermediate sum is exactly representable (integers, dyadic fractions; not -0), otherwise IEEE rounding decides, not rrss",
    ref="5/C14"),
  "C12": dict(
@@ -32,7 +32,7 @@ CLAIMED = {
    ref="5/C12"),
  "C04": dict(
    technique="property-based testing: differential against an independent reference interpreter on generated nested if/while/until/break/continue programs; non-termination decided by an exec-fuel hook",
-   text="150k (quick) generated control-flow programs per profile (nested if/else incl. empty branches, counter-guarded and free-form while/until, break/continue in both spellings from any if depth, conditions of every value kind, an erroring statement at a random point) are executed by rrss and by the reference model; printed markers and success/error must be identical; an rrss run using more than 10x the model's steps is a non-termination verdict.",
+   text="300k (quick) generated control-flow programs per profile (nested if/else incl. empty branches, counter-guarded and free-form while/until, break/continue in both spellings from any if depth, conditions of every value kind, an erroring statement at a random point) are executed by rrss and by the reference model; printed markers and success/error must be identical; an rrss run using more than 10x the model's steps is a non-termination verdict.",
    note="reference model (DESIGN Appendix A); break/continue outside loops never generated (unspecified); free-form loops beyond 2000 model steps are discarded and counted",
    ref="5/C04"),
  "C05": dict(
@@ -42,12 +42,12 @@ CLAIMED = {
    ref="5/C05"),
  "C06": dict(
    technique="property-based testing: model-based stateful testing; generated operation histories over four array variables interpreted by a deep-copy reference model, full state dump after every mutating step",
-   text="100k (quick) histories per profile of 1-14 operations (nested element writes with every index/key kind, element stores of copies, rock/roll in every form, whole-variable copies, by-value argument passing to a mutating function, arithmetic/comparison/printing of arrays, error candidates); after each mutating step all four variables are dumped and compared with the model, so any aliasing between copies shows as a differing dump.",
+   text="200k (quick) histories per profile of 1-14 operations (nested element writes with every index/key kind, element stores of copies, rock/roll in every form, whole-variable copies, by-value argument passing to a mutating function, arithmetic/comparison/printing of arrays, error candidates); after each mutating step all four variables are dumped and compared with the model, so any aliasing between copies shows as a differing dump.",
    note="reference model with deep-copy values; arrays <= 64 elements, indices <= 40",
    ref="5/C06"),
  "C07": dict(
    technique="property-based testing: differential against a reference implementation of split/join/cast/round over generated operands, parameters and destinations",
-   text="80k (quick) programs per profile of 1-4 cut/join/cast/turn steps on variables, array elements and pronouns, with and without `into` and `with`, over strings (empty, multi-byte, delimiters at ends/overlapping, via listen), numbers (fractions, negatives, huge, NaN, code-point boundaries), all radices incl. invalid ones, arrays with non-string elements; operand, holder and destination are dumped and compared with the model (result, operand unchanged/replaced, error vs success).",
+   text="400k (quick) programs per profile of 1-4 cut/join/cast/turn steps on variables, array elements and pronouns, with and without `into` and `with`, over strings (empty, multi-byte, delimiters at ends/overlapping, via listen), numbers (fractions, negatives, huge, NaN, code-point boundaries), all radices incl. invalid ones, arrays with non-string elements; operand, holder and destination are dumped and compared with the model (result, operand unchanged/replaced, error vs success).",
    note="reference model with its own leftmost non-overlapping split; radix digits and f64 syntax by std (trusted)",
    ref="5/C07"),
  "C08": dict(
@@ -67,12 +67,12 @@ CLAIMED = {
    ref="5/C10"),
  "C11": dict(
    technique="property-based testing: generated poetic word sequences and line texts checked against an independent digit rule (decimal numeral -> correctly rounded f64) and byte-exact string oracle",
-   text="100k (quick) poetic number literals (1-300 words plus extreme ones of ~430 digits per side, lengths incl. multiples of 10, apostrophes, stacked 's/'re suffixes, hyphens, keywords as words, periods/commas anywhere, non-ASCII), poetic strings (any line text closed on the line, followed by lines that must survive) and expression-like right-hand sides per profile; printed value and compute_value() vs the numeral spelled by the words, within the stated ulp tolerance (exact for integers < 2^53).",
+   text="500k (quick) poetic literals: number literals (1-300 words plus extreme ones of ~430 digits per side, lengths incl. multiples of 10, apostrophes, stacked 's/'re suffixes, hyphens, keywords as words, periods/commas anywhere, non-ASCII), poetic strings (any line text closed on the line, followed by lines that must survive) and expression-like right-hand sides per profile; printed value and compute_value() vs the numeral spelled by the words, within the stated ulp tolerance (exact for integers < 2^53).",
    note="poetic strings bounded to texts whose quotes/parentheses close on the line (F11, outside the quantifier); tolerance 16 ulp for non-integers (measured maximum 8); std f64 parsing trusted",
    ref="5/C11"),
  "C13": dict(
    technique="property-based testing: fault injection into generated valid programs; oracle = rejected, on the line computed from the text",
-   text="150k (quick) triples (valid generated program, statement position at any depth or EOF, one of 37 context-independent faulty lines) per profile; parse must return an error whose location and rendered text name exactly the line of the injected fault, also behind multi-line strings/comments and inside nested blocks.",
+   text="600k (quick) triples (valid generated program, statement position at any depth or EOF, one of 37 context-independent faulty lines) per profile; parse must return an error whose location and rendered text name exactly the line of the injected fault, also behind multi-line strings/comments and inside nested blocks.",
    note="each faulty line has no valid reading wherever a statement may start (two only at top level); expected line = 1 + line breaks before the insertion point",
    ref="5/C13"),
  "C15": dict(
@@ -82,22 +82,22 @@ CLAIMED = {
    ref="5/C15"),
  "C16": dict(
    technique="property-based testing: recording visitors over generated trees compared with an independent tree walk, every failing-callback index enumerated",
-   text="20k (quick) parsed grammar-generated trees per profile x every choice of the failing callback (all indices up to 40 events, 40 spread beyond); two recording visitors (leaf-only, and mid-level dispatching) driven by the public runner must log exactly the independent walk's sequence (each node once, reading order), fold left to right from the default, and with failure at callback k log exactly k events and return that error unchanged.",
+   text="80k (quick) parsed grammar-generated trees per profile x every choice of the failing callback (all indices up to 40 events, 40 spread beyond); two recording visitors (leaf-only, and mid-level dispatching) driven by the public runner must log exactly the independent walk's sequence (each node once, reading order), fold left to right from the default, and with failure at callback k log exactly k events and return that error unchanged.",
    note="expected order from an independent walk over public tree fields; statement-level leaves not delegated to the inner visitor cannot be observed",
    ref="5/C16"),
  "C17": dict(
    technique="property-based testing: differential between the constant folders and the interpreter on generated constant / unknown / other expressions inside random preludes",
-   text="120k (quick) expressions per profile in labelled classes; whenever a folder reports a value, executing `say <expr>` after a random prelude must print exactly that value; constant-class expressions must fold to the independently computed IEEE value; expressions reading a variable, pronoun, element, call or roll must not fold.",
+   text="500k (quick) expressions per profile in labelled classes; whenever a folder reports a value, executing `say <expr>` after a random prelude must print exactly that value; constant-class expressions must fold to the independently computed IEEE value; expressions reading a variable, pronoun, element, call or roll must not fold.",
    note="constant values recomputed independently with IEEE f64 arithmetic, left fold over list operands; poetic literal values are C11's subject",
    ref="5/C17"),
  "C18": dict(
    technique="property-based testing: expected lint set recomputed from the generated tree; every suggestion parsed back (round trip) and executed",
-   text="80k (quick) programs per profile of assignment-like statements over constant (0 digits, fractions, negative, -0, huge, inf, NaN), string (blanks, punctuation, line breaks) and non-constant right-hand sides at every nesting depth; the constant-assignment pass must report exactly the expected statements with target, value and line; the star-words of every suggestion must spell the reported value and, for plain variables, the suggested line must parse and assign that value; values without poetic spelling get no suggestion.",
+   text="400k (quick) programs per profile of assignment-like statements over constant (0 digits, fractions, negative, -0, huge, inf, NaN), string (blanks, punctuation, line breaks) and non-constant right-hand sides at every nesting depth; the constant-assignment pass must report exactly the expected statements with target, value and line; the star-words of every suggestion must spell the reported value and, for plain variables, the suggested line must parse and assign that value; values without poetic spelling get no suggestion.",
    note="each `*` of a suggestion stands for a letter; statements spanning several lines accept any of their lines; C11 tolerance for fractions",
    ref="5/C18"),
  "C19": dict(
    technique="property-based testing: independent recomputation of the repeated-identifier analysis and of the merged report order over generated, wild and mutated programs",
-   text="100k (quick) parsed programs per profile from four generators; linting must not panic, must leave the program's Debug text unchanged, must return the stable by-line merge of the per-pass reports, and the repeated-identifier reports must equal an independent recomputation over the tree in traversal order (with line and text).",
+   text="400k (quick) parsed programs per profile from five generators; linting must not panic, must leave the program's Debug text unchanged, must return the stable by-line merge of the per-pass reports, and the repeated-identifier reports must equal an independent recomputation over the tree in traversal order (with line and text).",
    note="traversal order as fixed by C16; consecutive mentions never differ only in case (the statement does not say how case is compared)",
    ref="5/C19"),
  "C20": dict(
